@@ -90,6 +90,10 @@ def generate(ck):
         for seq in itertools.product(ext_ops, repeat=n):
             if "simS" in seq:
                 descs.append({"cls": "single", "cfg": 0, "seq": list(seq), "extension": True})
+    for n in range(2, 4):
+        for seq in itertools.product(("simS", "simSX", "rf", "rfd", "interp"), repeat=n):
+            if "simSX" in seq and "simS" in seq:
+                descs.append({"cls": "single", "cfg": 0, "seq": list(seq), "extension": True})
     return descs
 
 
@@ -161,6 +165,16 @@ def _apply(obj, op, cfg, held=None):
             if op == "simS":
                 t = _grid(c["A"]).copy()
                 obj.simulate(t, _schedule(cfg, len(t)))
+                return ("ok", None)
+            if op == "simSX":
+                # a CONTINUED history: grid A followed by further stamps (A is an exact prefix), with a
+                # schedule that starts like the earlier one but differs inside the span already simulated
+                a = _grid(c["A"])
+                t = np.concatenate([a, a[-1] + (a[1:8] - a[0]) + (a[-1] - a[-2])])
+                s_ = _schedule(cfg, len(t))
+                k_ = len(a) // 2
+                s_[k_ : k_ + 3] = 0.85 * s_[k_ : k_ + 3]
+                obj.simulate(t, s_)
                 return ("ok", None)
             if op == "oth":
                 other = type(obj)(obj.nx, 0.4 * c["p_f"], c["p_i"], obj.fluid)
